@@ -41,7 +41,7 @@ def run(rec, hub, tier, seed, shard, nshards, budget):
     D = mkdims(fd)
 
     # -- 1. exhaustive pairs ---------------------------------------------------
-    universe = "abcd" if (tier == "thorough" or True) else "abc"
+    universe = "abcde" if tier == "thorough" else "abcd"
     subs = ordered_subsets(universe)
     pairs = list(itertools.product(subs, subs))
     rec.exhaustive_spaces[f"ordered pairs of ordered subsets of {universe} x 8 binary operators"] = True
